@@ -48,6 +48,7 @@ pub fn gen_spec(ch: &mut Ch) -> WorldSpec {
                 let kind_sel = ch.weighted(&[40, 35, 15, 10], "t.kind");
                 let mut t = default_transfer(1, path.clone(), TKind::Plain { body_id: 0, payload_len: 0 });
                 t.token_len = token_len;
+                t.token_vary = ch.chance(1, 6, "t.tokvary");
                 t.con = con;
                 t.extra = extra;
                 t.pre_gap_ns = ch.below(4, "t.pregap") * 50 * MS;
@@ -121,10 +122,13 @@ pub fn gen_spec(ch: &mut Ch) -> WorldSpec {
     }
     // noise clients on other keys
     if ch.chance(3, 10, "noise") {
-        let n = 1 + ch.below(40, "noise.n") as usize;
+        // a few requests on a handful of keys; now and then hundreds of
+        // distinct keys (a capacity-bounded cache only shows then)
+        let many = ch.chance(1, 12, "noise.many");
+        let n = if many { 300 + ch.below(400, "noise.n.many") as usize } else { 1 + ch.below(40, "noise.n") as usize };
         let mut dgs = Vec::new();
         for i in 0..n {
-            let p = vec![seg("noise"), format!("{}", i % 7).into_bytes()];
+            let p = vec![seg("noise"), format!("{}", if many { i } else { i % 7 }).into_bytes()];
             dgs.push(build_request(1, coap_lite::MessageType::NonConfirmable, i as u16, &[i as u8], &p, &[], None, None, &[]));
         }
         let mut t = default_transfer(1, vec![], TKind::Raw { datagrams: dgs, gap_ns: (1 + ch.below(20, "noise.gap")) * MS });
@@ -135,7 +139,16 @@ pub fn gen_spec(ch: &mut Ch) -> WorldSpec {
     let ov = if ch.below(2, "budget.rel") == 0 { fo_req.max(fo_resp) } else { fo_resp };
     let budget = gen_budget(ch, ov);
     WorldSpec {
-        server: ServerCfg { budget, expiry_ns: 1_000_000 * SEC, check_wire: false, snapshots: false, feed_all_types: false, record_held: false, held_every: 1, held_always_from: 0 },
+        // mostly far beyond any run; now and then a few seconds or a fraction
+        // of a second (transfers whose own gaps reach the expiry are outside
+        // the premises of C08 / C09)
+        server: ServerCfg { budget, expiry_ns: match ch.weighted(&[60, 12, 12, 8, 8], "expiry") {
+            0 => 1_000_000 * SEC,
+            1 => (1000 + ch.below(4000, "expiry.ms")) * MS,
+            2 => (700 + ch.below(1200, "expiry.ms")) * MS,
+            3 => 120 * SEC,
+            _ => (250 + ch.below(500, "expiry.ms")) * MS,
+        }, check_wire: false, snapshots: false, feed_all_types: false, record_held: false, held_every: 1, held_always_from: 0 },
         resources,
         clients,
         max_events: if thorough() { 80_000 } else { 30_000 },
